@@ -106,7 +106,7 @@ pub fn run_schedule_relimit(stream: &[u8], ch: &Choices, b: Bounds, max_len: usi
             if kk < bounds.len() {
                 let accounted = bounds[kk] + if tag == 0 { off } else { 4 + off };
                 // after the terminal outcome the accounting no longer applies
-                let terminal = matches!(outcome, Some(Ok(None)) | Some(Err(Error::InvalidLen))) || matches!(&outcome, Some(Err(Error::Io(e))) if e.kind() == io::ErrorKind::UnexpectedEof);
+                let terminal = matches!(outcome, Some(Ok(None)) | Some(Err(Error::InvalidLen))) || matches!(&outcome, Some(Err(Error::Io(e))) if e.kind() == io::ErrorKind::UnexpectedEof && e.to_string() != "transient");
                 if !terminal && consumed != accounted {
                     return Err(format!("{} bytes consumed from the source but {} accounted for by {} completed frames + state ({}, {})", consumed, accounted, kk, tag, off));
                 }
@@ -138,7 +138,7 @@ pub fn run_schedule_relimit(stream: &[u8], ch: &Choices, b: Bounds, max_len: usi
             Ok(None) => Expect::CleanEnd,
             Err(Error::Decode(_)) => Expect::DecodeErr,
             Err(Error::InvalidLen) => Expect::InvalidLen,
-            Err(Error::Io(e)) if e.kind() == io::ErrorKind::UnexpectedEof => Expect::UnexpectedEof,
+            Err(Error::Io(e)) if e.kind() == io::ErrorKind::UnexpectedEof && e.to_string() != "transient" => Expect::UnexpectedEof,
             Err(Error::Io(e)) if e.to_string() == "transient" => {
                 reported_errors += 1;
                 stats.errors += 1;
@@ -274,7 +274,10 @@ fn walk(rep: &mut Report, seed: u64, i: u64, rb: Bounds, states: &mut HashSet<(u
         let c = rng.usize_below(stream.len() + 1);
         stream.truncate(c);
     }
-    let ch: Choices = Rc::new(RefCell::new(Chooser::random(Rng::derive("c15/choices", seed, 1, i))));
+    let trickle = i % 5 == 2;
+    let rb = if trickle { Bounds { base: 1, ..rb } } else { rb };
+    let rng2 = Rng::derive("c15/choices", seed, 1, i);
+    let ch: Choices = Rc::new(RefCell::new(if trickle { Chooser::random_biased(rng2, 97) } else { Chooser::random(rng2) }));
     ch.borrow_mut().begin_run();
     rep.eval();
     let max_len = if i % 40 == 7 { 64 * 1024 } else { 8192 };
